@@ -334,7 +334,18 @@ def check(prop, tier, replay=None):
             result = json.load(open(rp))
             drv_ok = True
         else:
-            infra_errors.append("driver failed rc=%s: %s" % (rc, out[-1500:]))
+            # a panic / fatal error in a goroutine of the library kills the driver process: keep the
+            # runtime's message and the first frames (the trace can be thousands of lines long)
+            crash = ""
+            for mark in ("\npanic: ", "\nfatal error: ", "panic: ", "fatal error: "):
+                i = out.find(mark)
+                if i >= 0:
+                    crash = out[i:i + 3000].strip()
+                    break
+            if crash:
+                infra_errors.append("driver process died (rc=%s): %s" % (rc, crash))
+            else:
+                infra_errors.append("driver failed rc=%s: %s" % (rc, out[-1500:]))
 
     # ---- 5: model evaluation on the same cases
     corr = {"cases": 0, "mismatches": {}, "ran": False}
@@ -444,9 +455,14 @@ def check(prop, tier, replay=None):
     if infra_errors:
         broken.append({"kind": "infrastructure", "detail": infra_errors})
     if broken and not violations:
-        violations.append((new_replay({"kind": "no-failing-input-found", "broken": broken,
-                                       "what": "a proof obligation or the model/implementation correspondence no longer checks; "
-                                               "the search found no concrete failing input"}),
+        what = ("a proof obligation or the model/implementation correspondence no longer checks; "
+                "the search found no concrete failing input")
+        died = [e for e in infra_errors if e.startswith("driver process died")]
+        if died:
+            what = ("the driver process was killed while running the implementation (an unrecovered panic or a fatal "
+                    "runtime error in a goroutine): the correspondence could not be evaluated and no single failing "
+                    "input was isolated; " + died[0][:600])
+        violations.append((new_replay({"kind": "no-failing-input-found", "broken": broken, "what": what}),
                            " no-failing-input-found"))
     elif broken:
         # attach the broken obligations to the first replay for information
